@@ -327,6 +327,10 @@ type mlist struct {
 }
 
 type run struct {
+	// leftover: files of no list that a concurrent phase left behind (counted
+	// there, not judged); the sequential check does not report them again.
+	leftover map[string]bool
+
 	sc   *Scenario
 	c    *kernel.Ctx
 	dir  string
@@ -1241,7 +1245,7 @@ func (r *run) check(op Op, out *opOutcome, recs []*ls.Record) error {
 		return err
 	}
 	for _, nm := range names {
-		if known[nm] && r.findID(nm).st.has || strings.HasSuffix(nm, ".old") {
+		if known[nm] && r.findID(nm).st.has || strings.HasSuffix(nm, ".old") || r.leftover[nm] {
 			continue
 		}
 		return kernel.Violationf("stray-file", "data/filters contains %q, which belongs to no list in the model (after %s, requests: %s)", nm, op.K, fmtRecs(recs))
@@ -1475,7 +1479,7 @@ var Prop = &kernel.Property{
 		"a stalled download inside set_url is delivered as a dead connection (set_url holds the list mutex while downloading; a timer-driven refresh blocking on that mutex would stop the simulated clock); stalls past the client timeout are simulated for add_url, forced and scheduled refresh",
 	},
 	FaultKinds: []string{"dial_error", "status_not_200", "cut_in_headers", "cut_content_length", "cut_chunked", "slow_headers_timeout", "slow_body_timeout", "html_page", "binary_body", "local_file_missing", "local_file_is_directory", "clean_restart", "concurrent_phase"},
-	ProbeNames: []string{"refresh_forced", "refresh_scheduled", "refresh_partly_failed", "refresh_all_failed", "failed_refresh_left_list_unchanged", "changed_content_stored_as_normal_form", "unchanged_content_kept_inode",
+	ProbeNames: []string{"par_file_of_no_list_left_behind", "refresh_forced", "refresh_scheduled", "refresh_partly_failed", "refresh_all_failed", "failed_refresh_left_list_unchanged", "changed_content_stored_as_normal_form", "unchanged_content_kept_inode",
 		"allow_list_updated", "add_accepted", "add_rejected", "seturl_accepted", "seturl_rejected", "seturl_download_failed", "list_removed", "restart_reparsed_same_count",
 		"cut_before_any_byte", "cut_after_headers", "cut_mid_line", "cut_at_line_boundary", "cut_before_last_byte", "complete_chunked", "complete_close_delimited", "slow_but_in_time",
 		"ambiguous_text_accepted", "ambiguous_text_rejected", "same_checksum_other_text_kept_old", "same_content_from_new_location", "probe_name_in_merged_line", "local_file_read",
